@@ -17,22 +17,28 @@ EXTENDS Integers, Sequences, FiniteSets, TLC
 
 VARIABLES aclock,   \* last observed clock value (integer time units)
           ares,     \* resolution of the queue, 0 = none
+          aslack,   \* 0 when the queue's clock is the scheduler's clock; for the low-resolution pairing
+                    \* (a clock that only ticks once per `slack`) timing clauses hold up to one tick
           sched,    \* id -> [T, rd, seq, at]   (at = clock when scheduled)
           canc,     \* id -> clock of the first cancel
           ran       \* sequence of ids, in the order they ran
 
-avars == <<aclock, ares, sched, canc, ran>>
+avars == <<aclock, ares, aslack, sched, canc, ran>>
 
 Round(res, T) == IF res = 0 THEN T ELSE ((T + res - 1) \div res) * res
 
 RanSet == {ran[i] : i \in DOMAIN ran}
 
-AInit(res, t0) ==
+
+AInitS(res, t0, slack) ==
   /\ aclock = t0
   /\ ares = res
+  /\ aslack = slack
   /\ sched = <<>>
   /\ canc = <<>>
   /\ ran = <<>>
+
+AInit(res, t0) == AInitS(res, t0, 0)
 
 \* (rounded deadline, schedule order)
 Before(a, b) == \/ sched[a].rd < sched[b].rd
@@ -48,7 +54,7 @@ SchedUpd(id, T, t) ==
   /\ aclock' = t
   /\ sched' = sched @@ (id :> [T |-> T, rd |-> Round(ares, T),
                                seq |-> Cardinality(DOMAIN sched) + 1, at |-> t])
-  /\ UNCHANGED <<ares, canc, ran>>
+  /\ UNCHANGED <<ares, aslack, canc, ran>>
 
 CancelCheck(id, t) ==
   IF ClockCheck(t) # "ok" THEN ClockCheck(t)
@@ -57,13 +63,13 @@ CancelCheck(id, t) ==
 CancelUpd(id, t) ==
   /\ aclock' = t
   /\ canc' = IF id \in DOMAIN canc THEN canc ELSE canc @@ (id :> t)
-  /\ UNCHANGED <<ares, sched, ran>>
+  /\ UNCHANGED <<ares, aslack, sched, ran>>
 
 RunCheck(id, t) ==
   IF ClockCheck(t) # "ok" THEN ClockCheck(t)
   ELSE IF id \notin DOMAIN sched \/ id \in RanSet THEN "C10.once"
-  ELSE IF t < sched[id].T THEN "C10.notEarly"
-  ELSE IF id \in DOMAIN canc /\ canc[id] < sched[id].rd THEN "C10.cancel"
+  ELSE IF t < sched[id].T - aslack THEN "C10.notEarly"
+  ELSE IF id \in DOMAIN canc /\ canc[id] < sched[id].rd - aslack THEN "C10.cancel"
   ELSE IF \E b \in DOMAIN sched \ (RanSet \cup DOMAIN canc \cup {id}) :
             Before(b, id) /\ sched[b].at < sched[id].rd THEN "C10.order"
   ELSE "ok"
@@ -71,17 +77,17 @@ RunCheck(id, t) ==
 RunUpd(id, t) ==
   /\ aclock' = t
   /\ ran' = Append(ran, id)
-  /\ UNCHANGED <<ares, sched, canc>>
+  /\ UNCHANGED <<ares, aslack, sched, canc>>
 
 \* No lost wake-up: when nothing more can happen at this instant, every
 \* uncancelled action whose rounded deadline has been reached has run.
 QuietCheck(t) ==
   IF ClockCheck(t) # "ok" THEN ClockCheck(t)
-  ELSE IF \E id \in DOMAIN sched \ (RanSet \cup DOMAIN canc) : sched[id].rd <= t
+  ELSE IF \E id \in DOMAIN sched \ (RanSet \cup DOMAIN canc) : sched[id].rd + aslack <= t
        THEN "C10.noLostWakeup"
   ELSE "ok"
 
-QuietUpd(t) == aclock' = t /\ UNCHANGED <<ares, sched, canc, ran>>
+QuietUpd(t) == aclock' = t /\ UNCHANGED <<ares, aslack, sched, canc, ran>>
 
 Sched(id, T, t) == SchedCheck(id, T, t) = "ok" /\ SchedUpd(id, T, t)
 Cancel(id, t)   == CancelCheck(id, t) = "ok" /\ CancelUpd(id, t)
